@@ -11,6 +11,8 @@ ASSUMPTIONS = [
     "durations are arbitrary integers >= 0 (z3 Int)",
     "idle time of a machine = end of its last operation minus the sum of the durations on it (machines without operations contribute 0)",
     "reset mode: a first episode of every length, Dispatcher.reset(), then every history: the sums restart from zero",
+    "late mode: observers created after a prefix of every length: one reward per later dispatch, sums equal minus the increase of the "
+    "makespan / idle time since creation",
     "env mode: SingleJobShopGraphEnv (disjunctive graph, IsReady features, default and idle-time reward) - step() must return the reward "
     "emitted for that step; gymnasium/networkx/numpy run unmodified on concrete arrays, durations stay symbolic in the dispatcher",
 ]
@@ -32,6 +34,8 @@ def subspaces(tier):
     out += C.structure_subspaces(s4, 2, False, mode="plain")
     out += C.structure_subspaces(s3, 2, True, only_flexible=True, mode="plain")
     out += C.structure_subspaces(D.shapes(2, 3), 2, False, mode="plain", manual=True)
+    out += C.structure_subspaces(D.shapes(3, 3) + [(2, 2)], 2, False, canonical=True, mode="late")
+    out += C.structure_subspaces(D.shapes(2, 2), 2, True, only_flexible=True, mode="late")
     rs = s3 + [(2, 2)] if tier == "quick" else s4
     out += C.structure_subspaces(rs, 2, False, mode="reset")
     out += C.structure_subspaces(s2 if tier == "quick" else s3, 2, True, only_flexible=True, mode="reset")
@@ -47,7 +51,7 @@ def subspaces(tier):
 
 
 def cost(sp):
-    return C.cost(sp) * {"plain": 1, "reset": 3, "env": 4}[sp["mode"]]
+    return C.cost(sp) * {"plain": 1, "reset": 3, "env": 4, "late": 3}[sp["mode"]]
 
 
 def check_rewards(eng, mk, idle, spec, k, tag):
@@ -80,6 +84,8 @@ def harness(eng, sp):
     inst, desc = D.build_instance(eng, sp["shape"], sp["machines"], dmin=0)
     if mode == "env":
         return env_harness(eng, sp, inst, desc)
+    if mode == "late":
+        return late_harness(eng, sp, inst, desc)
     disp = Dispatcher(inst)
     if sp.get("manual"):
         # created detached and subscribed by hand: still exactly one reward per dispatch
@@ -158,3 +164,32 @@ def env_harness(eng, sp, inst, desc):
             eng.observe("r", reward)
         if episode == 0 and desc.n_ops > 2:
             break  # second episode only on the smallest instances (cost)
+
+
+def late_harness(eng, sp, inst, desc):
+    """Reward observers created after some dispatches: one reward per LATER dispatch, sums = minus the increase since creation."""
+    from job_shop_lib.dispatching import Dispatcher
+    from job_shop_lib.reinforcement_learning import MakespanReward, IdleTimeReward
+
+    disp = Dispatcher(inst)
+    spec = Spec(desc)
+    k0 = 1 + eng.choice(desc.n_ops, "dispatches-before-creation")
+    for _ in range(k0):
+        op, m = D.choose_dispatch(eng, desc, spec)
+        disp.dispatch(D.op_by_id(inst, op), m)
+        spec.apply(op, m)
+    mk0, idle0 = spec.makespan(), spec.idle_time()
+    mk, idle = MakespanReward(disp), IdleTimeReward(disp)
+    for k in range(desc.n_ops - k0):
+        op, m = D.choose_dispatch(eng, desc, spec)
+        disp.dispatch(D.op_by_id(inst, op), m)
+        spec.apply(op, m)
+        eng.reachable("transition")
+        eng.reachable("state")
+        if len(mk.rewards) != k + 1 or len(idle.rewards) != k + 1:
+            eng.fail("C13/late-created/not-exactly-one-reward-per-dispatch", f"{len(mk.rewards)}, {len(idle.rewards)} after {k + 1}")
+            return
+        eng.prove_all([(r <= 0, "C13/late-created/positive-reward") for r in list(mk.rewards) + list(idle.rewards)] +
+                      [(veq(vsum(mk.rewards), mk0 - spec.makespan()), "C13/late-created/makespan/sum-differs-from-minus-makespan-increase"),
+                       (veq(vsum(idle.rewards), idle0 - spec.idle_time()), "C13/late-created/idle/sum-differs-from-minus-idle-time-increase")])
+        eng.observe("r", [mk.rewards[-1], idle.rewards[-1]])
